@@ -57,6 +57,9 @@ CATALOGUE = [
     dict(modules=[dict(interval=4, slow=8, dopoll=[(1, 'ok')], reads={'a': [(0, 'ok')]}, readable=True),
                   dict(interval=8, slow=16, dopoll=[(0, 'ok')], reads={'b': [(1, 'ok')]}, readable=True)],
          env=[(30, 'pierr', 0, True), (60, 'pierr', 1, False), (90, 'pierr', 0, False)], horizon=160),
+    # the poll thread belongs to a module that is not polled itself (a communicator with enablePoll = False)
+    dict(bus=True, modules=[dict(interval=4, slow=8, dopoll=[(1, 'ok'), (0, 'other')], reads={'a': [(0, 'ok'), (1, 'secop')]}, readable=True),
+                            dict(interval=8, slow=16, dopoll=[(0, 'comm')], reads={'b': [(1, 'ok')]}, readable=True)], horizon=160),
     # constants with read functions are never polled, whatever their value and wherever they are declared
     dict(modules=[dict(interval=4, slow=8, dopoll=[(1, 'ok')], reads={'a': [(0, 'ok')]},
                        consts={'k0': (0.0, 'class'), 'k5': (5.0, 'class'), 'c0': (0.0, 'cfg'), 'c3': (3.0, 'cfg')}),
@@ -119,7 +122,7 @@ def random_scenario(rnd):
             env.append((at, 'interval', mi, rnd.choice([1, 2, 4, 8, 32])))
         else:
             env.append((at, 'trigger', mi, rnd.random() < 0.5))
-    return dict(modules=mods, env=env, horizon=rnd.randint(150, 300))
+    return dict(modules=mods, env=env, horizon=rnd.randint(150, 300), bus=rnd.random() < 0.2)
 
 
 def alpha(sc, r):
